@@ -17,7 +17,7 @@ import ast
 from ..core import walk_own, norm, AnalysisError
 from ..report import Ob, Floor
 from ..abseval import Evaluator, Opaque, Sym, Cat
-from ..rules import pure, loops, direction
+from ..rules import pure, loops, direction, mergetable
 from .. import exceptions
 
 SH = "http://www.w3.org/ns/shacl#"
@@ -215,6 +215,7 @@ def check(ctx, tier):
     obs.extend(o_pure)
     obs += ctx.attempt(lambda c, cl: direction.explicit_direction(c, cl)[0], ctx, "D-g", default=[])
     obs += ctx.attempt(lambda c, cl: pure.fresh_receivers(c, cl)[0], ctx, "D-h", default=[])
+    obs += ctx.attempt(lambda c, cl: mergetable.invariants(c, cl, which=('direction',))[0], ctx, "D-i", default=[])
     exceptions.apply(obs)
     floors = [Floor("R-TABLE/R-EMIT rows evaluated", rows, 27), Floor("emission loops", n_loops, 4),
               Floor("serializer functions examined for model mutation", n_pure, 40)]
